@@ -66,6 +66,10 @@ struct Prog {
     /// the first event has a field whose Debug impl panics half-way (caught by the caller)
     panic_first: bool,
     events: Vec<Ev>,
+    /// before event `.0` the field `late` of span `.1` (0 root, 1 mid, 2 leaf) is recorded with
+    /// value `.2`: every later record that shows the span has to show the value
+    #[serde(default)]
+    late: Option<(u8, u8, i64)>,
 }
 #[derive(Clone, Debug, Serialize, Deserialize, PartialEq)]
 struct Ev {
@@ -426,9 +430,18 @@ fn run_case(case: &Case) -> Outcome {
                 v.push(life("enter", i, i + 1));
             }
         }
+        let mut spans = spans;
         for (n, e) in p.events.iter().enumerate() {
+            if let Some((at, which, val)) = p.late {
+                if at as usize % p.events.len() == n && d > 0 {
+                    spans[which as usize % d].4.push(("late", val.to_string(), serde_json::json!(val)));
+                }
+            }
+            let scope_of = |n: usize| -> Vec<(&'static str, &'static str, Vec<(&'static str, String, serde_json::Value)>)> { spans[..n].iter().map(|s| (s.0, s.1, s.4.clone())).collect() };
             v.push(Want { level: e.level.clamp(1, 5), ti: (e.target % 2) as usize, id: format!("m_{t}_{n}_"), is_event: true, k: e.k, s: e.s.clone(), scope: scope_of(d), own: None });
         }
+        let scope_of = |n: usize| -> Vec<(&'static str, &'static str, Vec<(&'static str, String, serde_json::Value)>)> { spans[..n].iter().map(|s| (s.0, s.1, s.4.clone())).collect() };
+        let life = |word: &str, i: usize, scope_n: usize| Want { level: spans[i].3, ti: spans[i].2, id: word.to_string(), is_event: false, k: 0, s: String::new(), scope: scope_of(scope_n), own: Some(spans[i].0) };
         for i in (0..d).rev() {
             if case.opts.span_events & 4 != 0 {
                 v.push(life("exit", i, if json { i } else { i + 1 }));
@@ -451,17 +464,25 @@ fn run_case(case: &Case) -> Outcome {
                     let _g = tracing_core::dispatch::set_default(&d);
                     b.wait();
                     let depth = p.depth.min(3);
-                    let root = if depth >= 1 { Some(tracing::info_span!(target: "a", "root", rid = p.rid, who = p.who.as_str())) } else { None };
+                    let root = if depth >= 1 { Some(tracing::info_span!(target: "a", "root", rid = p.rid, who = p.who.as_str(), late = tracing::field::Empty)) } else { None };
                     let _r = root.as_ref().map(|s| s.enter());
-                    let mid = if depth >= 2 { Some(tracing::debug_span!(target: "a::b", "mid", n = p.n)) } else { None };
+                    let mid = if depth >= 2 { Some(tracing::debug_span!(target: "a::b", "mid", n = p.n, late = tracing::field::Empty)) } else { None };
                     let _m = mid.as_ref().map(|s| s.enter());
-                    let leaf = if depth >= 3 { Some(tracing::trace_span!(target: "c", "leaf", flag = p.flag)) } else { None };
+                    let leaf = if depth >= 3 { Some(tracing::trace_span!(target: "c", "leaf", flag = p.flag, late = tracing::field::Empty)) } else { None };
                     let _l = leaf.as_ref().map(|s| s.enter());
                     if p.panic_first {
                         let r = std::panic::catch_unwind(|| tracing::info!(target: "a", bad = ?Bomb, "m_bomb_"));
                         assert!(r.is_err());
                     }
                     for (n, e) in p.events.iter().enumerate() {
+                        if let Some((at, which, val)) = p.late {
+                            if at as usize % p.events.len() == n && depth > 0 {
+                                let sp = [&root, &mid, &leaf][which as usize % depth as usize];
+                                if let Some(sp) = sp {
+                                    sp.record("late", val);
+                                }
+                            }
+                        }
                         emit(e.level.clamp(1, 5), e.target, &format!("m_{t}_{n}_"), e.k, &e.s);
                     }
                     drop(_l);
@@ -548,14 +569,14 @@ impl Property for C13 {
         Isolation::Thread
     }
     fn cases(&self, tier: Tier) -> u32 {
-        tier.pick(5_000, 150_000)
+        tier.pick(30_000, 1_000_000)
     }
     fn strategy(&self, tier: Tier) -> BoxedStrategy<Case> {
         let fmt_ = prop_oneof![Just(Fmt::Full), Just(Fmt::Compact), Just(Fmt::Pretty), Just(Fmt::Json)];
         let opts = (any::<bool>(), proptest::bool::weighted(0.8), any::<bool>(), any::<bool>(), any::<bool>(), any::<bool>(), proptest::bool::weighted(0.25), any::<bool>(), prop_oneof![3 => Just(0u8), 2 => 0u8..16])
             .prop_map(|(target, level, thread_ids, thread_names, file, line, ansi, time, span_events)| Opts { target, level, thread_ids, thread_names, file, line, ansi, time, span_events });
         let ev = (1u8..=5, 0u8..2, any::<i64>(), "[a-z0-9]{1,8}").prop_map(|(level, target, k, s)| Ev { level, target, k, s });
-        let prog = (0u8..4, any::<u64>(), "[a-z]{1,6}", any::<i64>(), any::<bool>(), proptest::bool::weighted(0.25), proptest::collection::vec(ev, 1..5)).prop_map(|(depth, rid, who, n, flag, panic_first, events)| Prog { depth, rid, who, n, flag, panic_first, events });
+        let prog = (0u8..4, any::<u64>(), "[a-z]{1,6}", any::<i64>(), any::<bool>(), proptest::bool::weighted(0.25), proptest::collection::vec(ev, 1..5), proptest::option::weighted(0.4, (0u8..8, 0u8..3, -5i64..100))).prop_map(|(depth, rid, who, n, flag, panic_first, events, late)| Prog { depth, rid, who, n, flag, panic_first, events, late });
         let maxt = tier.pick(4usize, 8usize);
         (fmt_, opts, w_strategy(), proptest::collection::vec(prog, 1..=maxt))
             .prop_map(|(fmt, mut opts, writer, threads)| {
